@@ -68,18 +68,18 @@ Definition decode_rune (s : list N) : N * nat :=
       let sz := N.to_nat (N.land x 7) in
       let lo := accept_lo (N.shiftr x 4) in
       let hi := accept_hi (N.shiftr x 4) in
-      if (length s <? sz)%nat then rerr
+      if Nat.ltb (length s) sz then rerr
       else match t0 with
       | [] => rerr
       | c1 :: t1 =>
         if (c1 <? lo) || (hi <? c1) then rerr
-        else if (sz <=? 2)%nat then
+        else if Nat.leb sz 2 then
           (N.lor (N.shiftl (N.land c0 mask2) 6) (N.land c1 maskx), 2%nat)
         else match t1 with
         | [] => rerr
         | c2 :: t2 =>
           if (c2 <? locb) || (hicb <? c2) then rerr
-          else if (sz <=? 3)%nat then
+          else if Nat.leb sz 3 then
             (N.lor (N.lor (N.shiftl (N.land c0 mask3) 12) (N.shiftl (N.land c1 maskx) 6)) (N.land c2 maskx), 3%nat)
           else match t2 with
           | [] => rerr
